@@ -223,14 +223,21 @@ fn slot_mark_received() {
     assert!(snapshot(&e) == before);
 }
 
-//@h name=slot_created_drop props=C03,C02 fn=src/pdu_loop/frame_element/created_frame.rs::CreatedFrame::drop obligation="dropping a CreatedFrame frees the slot only if it is still Created; any other state is left alone"
+//@h name=slot_created_drop props=C03,C02 fn=src/pdu_loop/frame_element/created_frame.rs::CreatedFrame::drop obligation="dropping a CreatedFrame - empty or already carrying datagrams - frees the slot if (and only if) it is still Created; any other state is left alone"
 #[cfg_attr(kani, kani::proof)]
+#[cfg_attr(kani, kani::unwind(70))]
 #[cfg_attr(all(test, verif_replay), test)]
 fn slot_created_drop() {
     let e = any_slot(FrameState::None);
     let idx = AtomicU8::new(vk::any());
-    let f = CreatedFrame::claim_created(NonNull::from(&e).cast(), 3, &idx, DATA).unwrap();
+    let mut f = CreatedFrame::claim_created(NonNull::from(&e).cast(), 3, &idx, DATA).unwrap();
     assert!(peek(&e) == FrameState::Created);
+    // the frame may or may not carry datagrams when it is abandoned (a later push failed, the caller was cancelled)
+    let pushed: bool = vk::any();
+    if pushed {
+        let r = f.push_pdu(crate::Command::fprd(0x1000, 0x0130).into(), 0u16, None);
+        assert!(r.is_ok());
+    }
     // somebody (mark_sendable / a later owner) may have moved the slot on: any state
     let st = any_state();
     e.status.store(st, Ordering::SeqCst);
@@ -279,7 +286,15 @@ const DEADLINE: u64 = 1000;
 fn vnow() -> u64 {
     unsafe { VNOW }
 }
-fn vschedule(_at: u64, _w: &core::task::Waker) {}
+/// op-log of the time driver: how often a wake-up was scheduled and for which instant the last one was
+static mut SCHED_CALLS: u32 = 0;
+static mut SCHED_LAST_AT: u64 = 0;
+fn vschedule(at: u64, _w: &core::task::Waker) {
+    unsafe {
+        SCHED_CALLS += 1;
+        SCHED_LAST_AT = at;
+    }
+}
 fn vtimer(_t: crate::timer_factory::LabeledTimeout) -> crate::timer_factory::Timer {
     embassy_time::Timer::at(embassy_time::Instant::from_ticks(DEADLINE + 1000))
 }
@@ -296,7 +311,7 @@ fn inside(st: FrameState) -> bool {
     st == FrameState::Sending || st == FrameState::RxBusy
 }
 
-//@h name=fut_poll_table props=C06,C01,C03 fn=src/pdu_loop/frame_element/receiving_frame.rs::ReceiveFrameFut::poll obligation="decision table of poll for all 8 slot states x deadline passed or not x any retry count: RxDone wins over an expired deadline; expired & 0 retries -> Err(Timeout(Pdu)); expired & retries>0 -> Pending, retries-1, re-armed, Sendable, buffer and length unchanged (byte-identical retransmission); not expired -> Pending, nothing changed; never Ok unless RxDone"
+//@h name=fut_poll_table props=C06,C01,C03 fn=src/pdu_loop/frame_element/receiving_frame.rs::ReceiveFrameFut::poll obligation="decision table of poll for all 8 slot states x deadline passed or not x any retry count: RxDone wins over an expired deadline; expired & 0 retries -> Err(Timeout(Pdu)); expired & retries>0 -> Pending, retries-1, re-armed, Sendable, buffer and length unchanged (byte-identical retransmission) AND the new deadline registered with the time driver; not expired -> Pending, nothing changed, the current deadline registered; never Ok unless RxDone"
 #[cfg_attr(kani, kani::proof)]
 #[cfg_attr(kani, kani::stub(embassy_time_driver::now, vnow))]
 #[cfg_attr(kani, kani::stub(embassy_time_driver::schedule_wake, vschedule))]
@@ -324,7 +339,9 @@ fn fut_poll_table() {
     unsafe { VNOW = 0 };
     let _ = core::pin::Pin::new(&mut fut.timeout_timer).poll(&mut cx);
     unsafe { VNOW = if expired { DEADLINE + 1 } else { 1 } };
+    unsafe { SCHED_CALLS = 0 };
     let r = core::pin::Pin::new(&mut fut).poll(&mut cx);
+    let (sched_calls, sched_last) = unsafe { (SCHED_CALLS, SCHED_LAST_AT) };
     // contents never change in poll
     assert!(snapshot(&e) == before, "poll must not touch buffer, first_pdu or payload length");
     let after = peek(&e);
@@ -347,6 +364,7 @@ fn fut_poll_table() {
         let resend_ok = st == FrameState::Sendable || st == FrameState::Sending || st == FrameState::Sent || st == FrameState::RxBusy;
         if resend_ok {
             assert!(matches!(r, Poll::Pending) && fut.frame.is_some());
+            assert!(sched_calls >= 1 && sched_last == DEADLINE + 1000, "after a retry the NEW deadline is registered with the time driver: a lost retransmission must still wake the task");
         } else {
             assert!(matches!(r, Poll::Ready(Err(Error::Pdu(PduError::InvalidFrameState)))));
         }
@@ -357,6 +375,7 @@ fn fut_poll_table() {
         let waiting = st == FrameState::Sendable || st == FrameState::Sending || st == FrameState::Sent || st == FrameState::RxBusy;
         if waiting {
             assert!(matches!(r, Poll::Pending) && fut.frame.is_some());
+            assert!(sched_calls >= 1 && sched_last == DEADLINE, "while waiting the current deadline is registered with the time driver");
         } else {
             assert!(matches!(r, Poll::Ready(Err(Error::Pdu(PduError::InvalidFrameState)))));
         }
